@@ -197,9 +197,12 @@ def property_checks(inp):
 def gen_input(rng):
     n = rng.randint(1, 30)
     ns = rng.randint(2, 16); npr = rng.nprng()
-    kind = rng.choice(["random", "disc", "off", "rect"])
+    kind = rng.choice(["random", "disc", "off", "rect", "counts"])
     if kind == "random":
         mask = (npr.random((ns, ns)) < 0.6).astype(float)
+    elif kind == "counts":
+        # masks need not be 0/1: apodised (values in [0, 1]) or overlap counts (0, 1, 2, ...); the rule is still mean >= threshold
+        mask = npr.integers(0, 3, size=(ns, ns)).astype(float) if rng.random() < 0.6 else numpy.round(npr.random((ns, ns)), 2)
     elif kind == "rect":
         mask = (npr.random((ns, rng.randint(2, 24))) < 0.6).astype(float)      # non-square masks: x and y spacings differ
     elif kind == "disc":
